@@ -611,6 +611,44 @@ class K3:
                 else:
                     flat.append(x[0] if isinstance(x, tuple) else x)
             return native_connected(flat) if nm.endswith("CONNECTED") else native_division(flat)
+        if nm == "X_VARGROUPS":
+            # definitional stand-in for division_connected_variable_groups (graph form): [n, m, size or None] + 2m endpoints + n ids
+            n_, m_, size_ = ops[0], ops[1], ops[2]
+            ends = ops[3:3 + 2 * m_]
+            gids = [self.ev(o, val) for o in ops[3 + 2 * m_:]]
+            if any(g[0] != g[1] for g in gids):
+                # partial pruning: a block is named after one of its own vertices, and never exceeds the size
+                known = {v_: g[0] for v_, g in enumerate(gids) if g[0] == g[1]}
+                cnt: Dict[int, int] = {}
+                for v_, g_ in known.items():
+                    cnt[g_] = cnt.get(g_, 0) + 1
+                    if g_ in known and known[g_] != g_:
+                        return False
+                if size_ is not None and any(c_ > size_ for c_ in cnt.values()):
+                    return False
+                return None
+            gv = [g[0] for g in gids]
+            adj: Dict[int, List[int]] = {i: [] for i in range(n_)}
+            for k in range(m_):
+                adj[ends[2 * k]].append(ends[2 * k + 1])
+                adj[ends[2 * k + 1]].append(ends[2 * k])
+            blocks: Dict[int, List[int]] = {}
+            for v_, g_ in enumerate(gv):
+                blocks.setdefault(g_, []).append(v_)
+            for g_, vs_ in blocks.items():
+                if g_ not in vs_ or (size_ is not None and len(vs_) != size_):
+                    return False
+                seen_ = {vs_[0]}
+                st_ = [vs_[0]]
+                while st_:
+                    u_ = st_.pop()
+                    for w_ in adj[u_]:
+                        if w_ in vs_ and w_ not in seen_:
+                            seen_.add(w_)
+                            st_.append(w_)
+                if len(seen_) != len(vs_):
+                    return False
+            return True
         raise Undecided(f"no three-valued meaning for {nm}")
 
 
@@ -685,6 +723,68 @@ class Extender:
     def _branch(self, assign: Dict[int, Any], pending: List[int]) -> bool:
         if time.time() - self.t0 > self.budget:
             raise TimeoutError
+        # unit propagation: a constraint with one free variable left restricts that variable's values; a forced value is taken at once
+        forced: List[int] = []
+        narrowed: Dict[int, List[Any]] = {}
+        changed = True
+        while changed and pending:
+            changed = False
+            for idx in pending:
+                free = [v for v in self.cvars[idx] if v not in assign]
+                if len(free) != 1:
+                    continue
+                v = free[0]
+                dom = narrowed.get(v, self.doms[v])
+                keep = []
+                for val in dom:
+                    assign[v] = val
+                    if self.k3.ev(self.cons[idx], assign) is not False:
+                        keep.append(val)
+                assign.pop(v, None)
+                if not keep:
+                    for u in forced:
+                        assign.pop(u, None)
+                    return False
+                if len(keep) == 1:
+                    assign[v] = keep[0]
+                    forced.append(v)
+                    nxt0 = []
+                    good0 = True
+                    for j in pending:
+                        if v in self.cvars[j]:
+                            r0 = self.k3.ev(self.cons[j], assign)
+                            if r0 is False:
+                                good0 = False
+                                break
+                            if r0 is None:
+                                nxt0.append(j)
+                        else:
+                            nxt0.append(j)
+                    if not good0:
+                        for u in forced:
+                            assign.pop(u, None)
+                        return False
+                    pending = nxt0
+                    changed = True
+                    break
+                if len(keep) < len(dom):
+                    narrowed[v] = keep
+        if forced or narrowed:
+            # continue on what is left (components may have split); restricted domains apply to this subtree only
+            saved = {v: self.doms[v] for v in narrowed}
+            self.doms.update(narrowed)
+            try:
+                res = self._extend(assign, pending) if forced else self._branch_plain(assign, pending)
+            finally:
+                self.doms.update(saved)
+                for u in forced:
+                    assign.pop(u, None)
+            return res
+        return self._branch_plain(assign, pending)
+
+    def _branch_plain(self, assign: Dict[int, Any], pending: List[int]) -> bool:
+        if not pending:
+            return True
         # branch on the unassigned variable that occurs in the most undetermined constraints (ties: smaller domain)
         count: Dict[int, int] = {}
         for idx in pending:
